@@ -128,6 +128,53 @@ def _fingerprint(f):
     return hashlib.sha256(json.dumps(strip(f['blocks']), sort_keys=True).encode()).hexdigest()
 
 
+def _deleg_nf(FA, ret, spec, depth=0):
+    """Expand a return term `g(args)` through private functions g whose own result is again a single call."""
+    for _ in range(3):
+        if not (isinstance(ret, tuple) and ret[:1] == ('call',)):
+            break
+        g = next((x for x in FA.fns.values() if strip_generics(x['path']) == ret[1] and x['kind'] != 'Closure'), None)
+        if g is None or (g['exported'] and not g['unsafe']) or g['pub']:
+            break
+        G = FA.fn(g, {k: v for k, v in (spec or {}).items() if k in FA.const_params(g)})
+        inner = norm(G.local_term(0))
+        if inner[0] != 'call' or has_unknown(inner):
+            break
+        ret = norm(subst(inner, g, list(ret[2])))
+    return ret
+
+
+def _same_worker(FA, f, ret, base, spec):
+    """rank_prefetch_unchecked and rank_unchecked both end in the same private worker, with arguments that are equal or
+    computed from the same parameters (the prefetching phase contributes nothing to the call)."""
+    ru = [g for g in FA.by_base_name.get((base, 'rank_unchecked'), [])]
+    if not ru:
+        return False
+    R = FA.fn(ru[0], {k: v for k, v in (spec or {}).items() if k in FA.const_params(ru[0])})
+    a = _deleg_nf(FA, ret, spec)
+    b = _deleg_nf(FA, norm(R.local_term(0)), spec)
+    # positional renaming of rank_unchecked's parameters to f's
+    ren = {('param', ru[0]['names'].get(str(k), '_%d' % k)): ('param', f['names'].get(str(k), '_%d' % k)) for k in range(1, f['argc'] + 1)}
+
+    def go(x):
+        if isinstance(x, tuple):
+            return ren.get(x, tuple(go(y) for y in x))
+        return x
+    b = go(b)
+    if not (a[:1] == ('call',) and b[:1] == ('call',) and a[1] == b[1] and len(a[2]) == len(b[2])):
+        return False
+    if a[1].split('::')[-1] in ('rank_prefetch_unchecked',):
+        return False
+    for x, y in zip(a[2], b[2]):
+        if x == y:
+            continue
+        px = {z for z in subterms(x) if isinstance(z, tuple) and z and z[0] == 'param'}
+        py = {z for z in subterms(y) if isinstance(z, tuple) and z and z[0] == 'param'}
+        if not px or px != py:
+            return False
+    return True
+
+
 def rule_PF(facts):
     FA = facts['default']
     out = []
@@ -149,6 +196,9 @@ def rule_PF(facts):
             k2 = key + spec_key(spec)
             if ret[0] == 'call' and ret[1].split('::')[-1] == 'rank_unchecked' and tuple(ret[2]) == params:
                 out.append(Inst('R-PF', k2, 'ok', f['span'], 'returns rank_unchecked(self, symbol, i) on the untouched parameters', props,
+                                sample={'return': show(ret)}))
+            elif _same_worker(FA, f, ret, base, spec):
+                out.append(Inst('R-PF', k2, 'ok', f['span'], 'returns the same private worker call as rank_unchecked, on arguments computed from the same parameters', props,
                                 sample={'return': show(ret)}))
             else:
                 out.append(Inst('R-PF', k2, 'violation', f['span'],
